@@ -476,6 +476,32 @@ pub fn run_c01(tier: &str) -> i32 {
         publish_steps(rep, &steps);
     });
     finish_steps(&rep);
+    // the first line decides the line ending - also when it is longer than any read buffer
+    {
+        let lens: Vec<usize> = if thorough { vec![4095, 4096, 8189, 8190, 8191, 8192, 8193, 16384, 70000] } else { vec![8190, 8191, 8192, 8193, 70000] };
+        let b = Bench::new(&help);
+        for len in lens {
+            for crlf in [false, true] {
+                for first in ["text", "write"] {
+                    let l0 = if first == "text" { "y".repeat(len) } else { format!("-TXTPP#write {}", "y".repeat(len - 13)) };
+                    for rest in [vec!["x", "-TXTPP#temp t.out", "-a", "-b", "x"], vec!["-TXTPP#include nl.txt", "x"], vec!["x"]] {
+                        let mut lines: Vec<&str> = vec![l0.as_str()];
+                        lines.extend(rest);
+                        let src = build_source(&lines, crlf, true);
+                        let mut steps = BTreeSet::new();
+                        if c01_case(&rep, &b, &src, true, 9, &mut steps) {
+                            rep.add("long_first_line_cases", 1);
+                        }
+                        if let (Ok(mf), r) = (b.model(&src, true), b.run(&src, Mode::Build, true, true)) {
+                            if r.v == V::Ok && r.tmp.as_ref() != mf.temps.get(TMP) {
+                                rep.violate("temp-differs", format!("first line of {len} bytes ({first}, {}): temp target is {:?}, semantics prescribe {:?}", if crlf { "CRLF" } else { "LF" }, r.tmp.as_ref().map(|x| show(x)), mf.temps.get(TMP).map(|x| show(x))), replay_json("C01", &src, true, json!({})));
+                            }
+                        }
+                    }
+                }
+            }
+        }
+    }
     crate::eproj::run_into(&rep);
     rep.finish()
 }
